@@ -46,9 +46,9 @@ STREAMS = {
 P = "OpfVerif.Props."
 PROPS = {
     # fit line segments: 0 proto, 1 cost, 2 pred, 3 assigned label, 4 true label, 5 order, 6 drained, 7 predictions, 8 relevant
-    "C01": {"modules": [P + "C01", P + "C01Exec"], "streams": ["fit"],
+    "C01": {"modules": [P + "C01", P + "C01Exec"], "streams": ["fit", "learn"],
             "relevant": {"fit": [1, 2, 3, 5, 6], "lawfit": None}},
-    "C02": {"modules": [P + "C02", P + "C02Exec", P + "C02Weight", P + "C02WeightGraph"], "streams": ["prim", "fit"],
+    "C02": {"modules": [P + "C02", P + "C02Exec", P + "C02Weight", P + "C02WeightGraph"], "streams": ["prim", "fit", "semi"],
             "relevant": {"prim": None, "fit": [0]}},
     "C03": {"modules": [P + "C03"], "streams": ["fit", "semi"], "relevant": {"predict": [0]}},
     "C04": {"modules": [P + "C04", P + "C13"], "streams": ["fit", "cluster", "select"],
